@@ -3,11 +3,6 @@ import TongoProofs.Lemmas.TlbPrims
 namespace Tongo.Tlb
 open Tongo Tongo.Bits
 
-/-- the elements of a list-shaped value -/
-def Val.toList : Val → List Val
-  | .cons h t => h :: Val.toList t
-  | _ => []
-
 /-- domain of a VM stack value: every element in the domain of the element type (fuel as used by `encodeStack`) -/
 def inDomStack (env : Env) : Nat → Ty → Val → Bool
   | 0, _, _ => false
@@ -25,12 +20,12 @@ variable {env : Env}
 
 theorem stack_rt (hEnv : EnvWF env) (e : Ty) (hw : wfb env e = true) :
     ∀ (k : Nat) (v : Val) (b b' : Builder), inDomStack env k e v = true → encodeStack env k e v b = .ok b' →
-      ∃ xs rs, b' = b.app xs rs ∧ ∀ s : Slice, s.isLibrary = false → s.bits = [] → s.refs = [] →
+      ∃ xs rs, b' = b.app xs rs ∧ ∀ s : Slice, s.isLibrary = false → s.isPruned = false → s.bits = [] → s.refs = [] →
         ∃ s', decodeStack env k e (Prim.valLen v) (s.prepend xs rs) = .ok ((Val.toList v).reverse, s')
   | 0, _, _, _, hd, _ => by simp [inDomStack] at hd
   | k + 1, .nil, b, b', _, he => by
     simp only [encodeStack] at he; cases he
-    exact ⟨[], [], by simp, fun s _ _ _ => ⟨s, by simp [decodeStack, Prim.valLen, Val.toList]⟩⟩
+    exact ⟨[], [], by simp, fun s _ _ _ _ => ⟨s, by simp [decodeStack, Prim.valLen, Val.toList]⟩⟩
   | k + 1, .cons x rest, b, b', hd, he => by
     simp only [inDomStack, Bool.and_eq_true] at hd
     simp only [encodeStack] at he
@@ -40,9 +35,9 @@ theorem stack_rt (hEnv : EnvWF env) (e : Ty) (hw : wfb env e = true) :
     obtain ⟨xs', rs', hch, hrec⟩ := stack_rt hEnv e hw k rest Builder.empty child hd.2 hc
     obtain ⟨xs, rs, hb, hrt⟩ := (Inv.all env hEnv primOK_of_proved k).enc e x b1 b' hw hd.1 he3
     refine ⟨xs, child.toCell :: rs, by rw [hb, e1, Builder.app_app]; simp, ?_⟩
-    intro s hs h1 h2
-    obtain ⟨s1, hdec1⟩ := hrec {} rfl rfl rfl
-    obtain ⟨s2, hdec2, _⟩ := hrt s hs (Or.inr ⟨h1, h2⟩)
+    intro s hs hp h1 h2
+    obtain ⟨s1, hdec1⟩ := hrec {} rfl rfl rfl rfl
+    obtain ⟨s2, hdec2, _⟩ := hrt s hs (Or.inr ⟨h1, h2, hp⟩)
     refine ⟨s2, ?_⟩
     have hcell : Slice.ofCell child.toCell = ({} : Slice).prepend xs' rs' := by
       rw [hch]; exact ofCell_app_empty xs' rs'
@@ -90,7 +85,7 @@ theorem vmstack_roundtrip (hEnv : EnvWF env) (e : Ty) (hw : wfb env e = true) (f
   have hcell : Slice.ofCell b'.toCell = ({} : Slice).prepend (natToBits 24 (Prim.valLen v) ++ xs) rs := by
     rw [hb, e1, Builder.app_app]
     simp [Builder.empty, Builder.app, Builder.toCell, Slice.ofCell, Slice.prepend]
-  obtain ⟨s', hdec⟩ := hrec {} rfl rfl rfl
+  obtain ⟨s', hdec⟩ := hrec {} rfl rfl rfl rfl
   have hr := Slice.readUint_prepend ({} : Slice) 24 (Prim.valLen v) xs rs (by omega)
   rw [Nat.mod_eq_of_lt hlen] at hr
   rw [hcell]
